@@ -8,6 +8,7 @@ import (
 	"os"
 	"path/filepath"
 	"sort"
+	"time"
 
 	"j5verif/checker/core"
 	"j5verif/checker/props"
@@ -20,7 +21,12 @@ func main() {
 	verif := flag.String("verif", "", "verif dir (default: parent of the binary's dir)")
 	out := flag.String("out", "", "evidence file (default <verif>/evidence/<prop>.json)")
 	list := flag.Bool("list", false, "list implemented properties")
+	reach := flag.Bool("reach", false, "debug: print reachable set sizes for entries given as args rel/pkg:Func")
 	flag.Parse()
+	if *reach {
+		debugReach(*repo, flag.Args())
+		return
+	}
 	if *list {
 		var ids []string
 		for id := range props.Registry {
@@ -48,6 +54,7 @@ func main() {
 		os.Exit(2)
 	}
 	os.Remove(*out)
+	t0 := time.Now()
 	p, err := core.Load(*repo)
 	if err != nil {
 		// A tree that does not load cannot be judged; this is a failed check.
@@ -56,6 +63,7 @@ func main() {
 		os.Exit(r.Finish(*out))
 	}
 	r := core.NewRun(*prop, *tier, *verif, p)
+	r.Start = t0
 	func() {
 		defer func() {
 			if e := recover(); e != nil {
